@@ -114,173 +114,349 @@ func straddle(calls []hcall, k int) string {
 
 func C16(r *vf.Run) {
 	r.Rule = "generated histories x every split point (0..n, including before SetBase), plus two successive splits and a clone of the clone: tail emitted into a Clone (buffer exactly large enough or larger) and Appended back; the directly-fed emitter is the oracle for Bytes, Len, PC, GetBase, Flags, GetLabel, both listings, Finalize outcome and finalized bytes; original re-observed between Clone and Append; over-capacity Append (1-3 bytes short) must panic and leave the original unchanged; a cell is (what straddles the split, listing on/off)"
-	if !r.Phase("splits") {
-		return
-	}
 	chunks := r.N(64, 3200)
-	r.Parallel(runtime.NumCPU(), chunks, func(w, ci int) {
-		g := r.Rand("hist").Fork(uint64(ci))
-		cells := map[string]int64{}
-		for k := 0; k < 32 && !r.TooMany(); k++ {
-			listing := g.Intn(2) == 0
-			calls, base, _ := genHistory(g, histOpts{maxCalls: 50, listing: listing, dataBlocks: g.Intn(3) == 0, withRefs: true, withDup: g.Intn(4) == 0})
-			names := labelNames(calls)
-			hs := func() []string { return histStrings(calls) }
-			// direct emitter = oracle
-			direct := asm.NewEmitter(make([]byte, 16384), listing)
-			var dpan []bool
-			for _, c := range calls {
-				dpan = append(dpan, invoke(direct, c) != nil)
-			}
-			want := observeFull(direct, names, listing)
-			wantFin, wantErr := finalizeOutcome(direct)
-			wantFinBytes := append([]byte(nil), direct.Bytes()...)
-			total := direct.Len()
-			_ = wantErr
-			// repeated and nested splitting: after an Append the emitter must be as good as a directly fed
-			// one, so splitting it again (or cloning the clone) must still reproduce the direct result
-			for rep := 0; rep < 6 && len(calls) >= 2; rep++ {
-				a, b := g.Intn(len(calls)+1), g.Intn(len(calls)+1)
-				if a > b {
-					a, b = b, a
+	if r.Phase("splits") {
+		r.Parallel(runtime.NumCPU(), chunks, func(w, ci int) {
+			g := r.Rand("hist").Fork(uint64(ci))
+			cells := map[string]int64{}
+			for k := 0; k < 32 && !r.TooMany(); k++ {
+				listing := g.Intn(2) == 0
+				calls, base, _ := genHistory(g, histOpts{maxCalls: 50, listing: listing, dataBlocks: g.Intn(3) == 0, withRefs: true, withDup: g.Intn(4) == 0})
+				names := labelNames(calls)
+				hs := func() []string { return histStrings(calls) }
+				// direct emitter = oracle
+				direct := asm.NewEmitter(make([]byte, 16384), listing)
+				var dpan []bool
+				for _, c := range calls {
+					dpan = append(dpan, invoke(direct, c) != nil)
 				}
-				nested := g.Bool()
-				orig := asm.NewEmitter(make([]byte, 16384), listing)
-				for _, c := range calls[:a] {
-					invoke(orig, c)
-				}
-				pan := vf.Try(func() {
-					c1 := orig.Clone(make([]byte, 16384))
-					for _, c := range calls[a:b] {
-						invoke(c1, c)
+				want := observeFull(direct, names, listing)
+				wantFin, wantErr := finalizeOutcome(direct)
+				wantFinBytes := append([]byte(nil), direct.Bytes()...)
+				total := direct.Len()
+				_ = wantErr
+				// repeated and nested splitting: after an Append the emitter must be as good as a directly fed
+				// one, so splitting it again (or cloning the clone) must still reproduce the direct result
+				for rep := 0; rep < 6 && len(calls) >= 2; rep++ {
+					a, b := g.Intn(len(calls)+1), g.Intn(len(calls)+1)
+					if a > b {
+						a, b = b, a
 					}
+					nested := g.Bool()
+					orig := asm.NewEmitter(make([]byte, 16384), listing)
+					for _, c := range calls[:a] {
+						invoke(orig, c)
+					}
+					pan := vf.Try(func() {
+						c1 := orig.Clone(make([]byte, 16384))
+						for _, c := range calls[a:b] {
+							invoke(c1, c)
+						}
+						if nested {
+							c2 := c1.Clone(make([]byte, 16384))
+							for _, c := range calls[b:] {
+								invoke(c2, c)
+							}
+							c1.Append(c2)
+							orig.Append(c1)
+						} else {
+							orig.Append(c1)
+							c2 := orig.Clone(make([]byte, 16384))
+							for _, c := range calls[b:] {
+								invoke(c2, c)
+							}
+							orig.Append(c2)
+						}
+					})
+					r.Eval(1)
+					kind := "two-splits"
 					if nested {
-						c2 := c1.Clone(make([]byte, 16384))
-						for _, c := range calls[b:] {
-							invoke(c2, c)
+						kind = "nested-clones"
+					}
+					if pan != nil {
+						r.Fail("recombined-"+kind+"-panic", fmt.Sprintf("splits at %d and %d (%s): %v", a, b, kind, pan), hs())
+						continue
+					}
+					got := observeFull(orig, names, listing)
+					if d := want.diffFull(got); d != "" {
+						r.Fail("recombined-"+kind+"-differs", fmt.Sprintf("splits at %d and %d of %d (%s): direct vs recombined: %s", a, b, len(calls), kind, d), hs())
+						continue
+					}
+					if fin, _ := finalizeOutcome(orig); fin != wantFin || (wantFin == "ok" && string(orig.Bytes()) != string(wantFinBytes)) {
+						r.Fail("recombined-"+kind+"-finalize", fmt.Sprintf("splits at %d and %d (%s): Finalize direct=%s recombined=%s or finalized bytes differ", a, b, kind, wantFin, fin), hs())
+						continue
+					}
+					cells["multi:"+kind]++
+				}
+				for sp := 0; sp <= len(calls); sp++ {
+					r.Eval(1)
+					orig := asm.NewEmitter(make([]byte, 16384), listing)
+					for i, c := range calls[:sp] {
+						if (invoke(orig, c) != nil) != dpan[i] {
+							r.Fail("nondeterministic-refusal", fmt.Sprintf("call #%d %s refused in one emitter but not the other", i, c), hs())
 						}
-						c1.Append(c2)
-						orig.Append(c1)
-					} else {
-						orig.Append(c1)
-						c2 := orig.Clone(make([]byte, 16384))
-						for _, c := range calls[b:] {
-							invoke(c2, c)
+					}
+					snap := observeFull(orig, names, listing)
+					tailLen := total - orig.Len()
+					cbuf := make([]byte, tailLen+[]int{0, 0, 1, 64}[g.Intn(4)])
+					clone := orig.Clone(cbuf)
+					mismatch := false
+					for i, c := range calls[sp:] {
+						if (invoke(clone, c) != nil) != dpan[sp+i] {
+							r.Fail("clone-refusal-differs", fmt.Sprintf("split %d: call #%d %s refused=%v in the clone but refused=%v directly", sp, sp+i, c, !dpan[sp+i], dpan[sp+i]), hs())
+							mismatch = true
+							break
 						}
-						orig.Append(c2)
 					}
-				})
-				r.Eval(1)
-				kind := "two-splits"
-				if nested {
-					kind = "nested-clones"
-				}
-				if pan != nil {
-					r.Fail("recombined-"+kind+"-panic", fmt.Sprintf("splits at %d and %d (%s): %v", a, b, kind, pan), hs())
-					continue
-				}
-				got := observeFull(orig, names, listing)
-				if d := want.diffFull(got); d != "" {
-					r.Fail("recombined-"+kind+"-differs", fmt.Sprintf("splits at %d and %d of %d (%s): direct vs recombined: %s", a, b, len(calls), kind, d), hs())
-					continue
-				}
-				if fin, _ := finalizeOutcome(orig); fin != wantFin || (wantFin == "ok" && string(orig.Bytes()) != string(wantFinBytes)) {
-					r.Fail("recombined-"+kind+"-finalize", fmt.Sprintf("splits at %d and %d (%s): Finalize direct=%s recombined=%s or finalized bytes differ", a, b, kind, wantFin, fin), hs())
-					continue
-				}
-				cells["multi:"+kind]++
-			}
-			for sp := 0; sp <= len(calls); sp++ {
-				r.Eval(1)
-				orig := asm.NewEmitter(make([]byte, 16384), listing)
-				for i, c := range calls[:sp] {
-					if (invoke(orig, c) != nil) != dpan[i] {
-						r.Fail("nondeterministic-refusal", fmt.Sprintf("call #%d %s refused in one emitter but not the other", i, c), hs())
+					if mismatch {
+						continue
 					}
-				}
-				snap := observeFull(orig, names, listing)
-				tailLen := total - orig.Len()
-				cbuf := make([]byte, tailLen+[]int{0, 0, 1, 64}[g.Intn(4)])
-				clone := orig.Clone(cbuf)
-				mismatch := false
-				for i, c := range calls[sp:] {
-					if (invoke(clone, c) != nil) != dpan[sp+i] {
-						r.Fail("clone-refusal-differs", fmt.Sprintf("split %d: call #%d %s refused=%v in the clone but refused=%v directly", sp, sp+i, c, !dpan[sp+i], dpan[sp+i]), hs())
-						mismatch = true
-						break
+					st := straddle(calls, sp)
+					cell := fmt.Sprintf("%s:listing=%v", st, listing)
+					if d := snap.diffFull(observeFull(orig, names, listing)); d != "" {
+						r.Fail("clone-affects-original", fmt.Sprintf("split %d/%d: driving the clone changed the original before Append: %s", sp, len(calls), d), hs())
+						continue
 					}
-				}
-				if mismatch {
-					continue
-				}
-				st := straddle(calls, sp)
-				cell := fmt.Sprintf("%s:listing=%v", st, listing)
-				if d := snap.diffFull(observeFull(orig, names, listing)); d != "" {
-					r.Fail("clone-affects-original", fmt.Sprintf("split %d/%d: driving the clone changed the original before Append: %s", sp, len(calls), d), hs())
-					continue
-				}
-				// over-capacity Append on a twin original with too little room
-				if short := g.Intn(8); short >= 1 && short <= 3 && clone.Len() >= short {
-					small := asm.NewEmitter(make([]byte, orig.Len()+clone.Len()-short), listing)
-					for _, c := range calls[:sp] {
-						invoke(small, c)
+					// over-capacity Append on a twin original with too little room
+					if short := g.Intn(8); short >= 1 && short <= 3 && clone.Len() >= short {
+						small := asm.NewEmitter(make([]byte, orig.Len()+clone.Len()-short), listing)
+						for _, c := range calls[:sp] {
+							invoke(small, c)
+						}
+						sb := observeFull(small, names, listing)
+						pan := func() (p interface{}) {
+							defer func() { p = recover() }()
+							small.Append(clone)
+							return nil
+						}()
+						if pan == nil {
+							r.Fail("append-overflow-accepted", fmt.Sprintf("split %d: Append of %d bytes into %d free bytes was not refused", sp, clone.Len(), clone.Len()-short), hs())
+						} else if d := sb.diffFull(observeFull(small, names, listing)); d != "" {
+							r.Fail("append-overflow-modifies", fmt.Sprintf("split %d: refused Append modified the original: %s", sp, d), hs())
+						}
+						cells[fmt.Sprintf("append-refused:short%d", short)]++
 					}
-					sb := observeFull(small, names, listing)
 					pan := func() (p interface{}) {
 						defer func() { p = recover() }()
-						small.Append(clone)
+						orig.Append(clone)
 						return nil
 					}()
-					if pan == nil {
-						r.Fail("append-overflow-accepted", fmt.Sprintf("split %d: Append of %d bytes into %d free bytes was not refused", sp, clone.Len(), clone.Len()-short), hs())
-					} else if d := sb.diffFull(observeFull(small, names, listing)); d != "" {
-						r.Fail("append-overflow-modifies", fmt.Sprintf("split %d: refused Append modified the original: %s", sp, d), hs())
+					if pan != nil {
+						r.Fail("append-panics", fmt.Sprintf("split %d: Append panicked: %v", sp, pan), hs())
+						continue
 					}
-					cells[fmt.Sprintf("append-refused:short%d", short)]++
-				}
-				pan := func() (p interface{}) {
-					defer func() { p = recover() }()
-					orig.Append(clone)
-					return nil
-				}()
-				if pan != nil {
-					r.Fail("append-panics", fmt.Sprintf("split %d: Append panicked: %v", sp, pan), hs())
-					continue
-				}
-				got := observeFull(orig, names, listing)
-				if d := want.diffFull(got); d != "" {
-					key := "recombined-differs"
-					if st == "base" || (len(st) >= 4 && (st[len(st)-4:] == "base" || containsPlus(st, "base"))) {
-						key = "recombined-differs-base-in-tail"
+					got := observeFull(orig, names, listing)
+					if d := want.diffFull(got); d != "" {
+						key := "recombined-differs"
+						if st == "base" || (len(st) >= 4 && (st[len(st)-4:] == "base" || containsPlus(st, "base"))) {
+							key = "recombined-differs-base-in-tail"
+						}
+						r.Fail(key, fmt.Sprintf("split %d/%d (%s straddles, base %s): direct vs recombined: %s", sp, len(calls), st, base, d), hs())
+						continue
 					}
-					r.Fail(key, fmt.Sprintf("split %d/%d (%s straddles, base %s): direct vs recombined: %s", sp, len(calls), st, base, d), hs())
-					continue
-				}
-				gotFin, _ := finalizeOutcome(orig)
-				if gotFin != wantFin {
-					key := "finalize-outcome-differs"
-					if containsPlus(st, "base") {
-						key = "recombined-differs-base-in-tail"
+					gotFin, _ := finalizeOutcome(orig)
+					if gotFin != wantFin {
+						key := "finalize-outcome-differs"
+						if containsPlus(st, "base") {
+							key = "recombined-differs-base-in-tail"
+						}
+						r.Fail(key, fmt.Sprintf("split %d/%d (%s straddles): Finalize direct=%s recombined=%s", sp, len(calls), st, wantFin, gotFin), hs())
+						continue
 					}
-					r.Fail(key, fmt.Sprintf("split %d/%d (%s straddles): Finalize direct=%s recombined=%s", sp, len(calls), st, wantFin, gotFin), hs())
-					continue
+					// after a failed Finalize the set of already-patched operands depends on map
+					// iteration order even for one emitter, so bytes are compared on success only
+					if wantFin == "ok" && string(orig.Bytes()) != string(wantFinBytes) {
+						r.Fail("finalized-bytes-differ", fmt.Sprintf("split %d/%d (%s straddles): finalized bytes differ at %d", sp, len(calls), st, firstDiff(orig.Bytes(), wantFinBytes)), hs())
+						continue
+					}
+					cells[cell]++
 				}
-				// after a failed Finalize the set of already-patched operands depends on map
-				// iteration order even for one emitter, so bytes are compared on success only
-				if wantFin == "ok" && string(orig.Bytes()) != string(wantFinBytes) {
-					r.Fail("finalized-bytes-differ", fmt.Sprintf("split %d/%d (%s straddles): finalized bytes differ at %d", sp, len(calls), st, firstDiff(orig.Bytes(), wantFinBytes)), hs())
-					continue
+				if ci == 0 && k < 2 {
+					r.Sample(map[string]interface{}{"calls": hs()[:min(12, len(calls))], "splits": len(calls) + 1, "listing": listing, "finalize": wantFin})
 				}
-				cells[cell]++
 			}
-			if ci == 0 && k < 2 {
-				r.Sample(map[string]interface{}{"calls": hs()[:min(12, len(calls))], "splits": len(calls) + 1, "listing": listing, "finalize": wantFin})
+			r.MergeCells(cells)
+		})
+	}
+	if r.Phase("clone-trees") {
+		chunks := r.N(64, 3200)
+		r.Parallel(runtime.NumCPU(), chunks, func(w, ci int) {
+			g := r.Rand("tree").Fork(uint64(ci))
+			cells := map[string]int64{}
+			for k := 0; k < 48 && !r.TooMany(); k++ {
+				listing := g.Intn(2) == 0
+				calls, _, _ := genHistory(g, histOpts{maxCalls: 60, listing: listing, dataBlocks: g.Intn(4) == 0, withRefs: true, withDup: g.Intn(4) == 0})
+				names := labelNames(calls)
+				hs := func() []string { return histStrings(calls) }
+				direct := asm.NewEmitter(make([]byte, 16384), listing)
+				for _, c := range calls {
+					invoke(direct, c)
+				}
+				want := observeFull(direct, names, listing)
+				wantFin, _ := finalizeOutcome(direct)
+				wantFinBytes := append([]byte(nil), direct.Bytes()...)
+				for rep := 0; rep < 4; rep++ {
+					t := &cloneTree{g: g, nilMode: g.Intn(5) == 0, cells: cells}
+					var buf []byte
+					if !t.nilMode {
+						buf = make([]byte, 16384)
+					}
+					root := asm.NewEmitter(buf, listing)
+					r.Eval(1)
+					pan := vf.Try(func() { t.feed(root, buf, calls, 0) })
+					if pan != nil {
+						r.Fail("clone-tree-panic", fmt.Sprintf("emitting through %s panicked: %v", t.describe(), pan), map[string]interface{}{"calls": hs(), "tree": t.log})
+						continue
+					}
+					got := observeFull(root, names, listing)
+					if t.nilMode {
+						// an emitter without a target: position, flags and labels are what it tracks
+						if got.PC != want.PC || got.Flags != want.Flags || fmt.Sprint(got.Labels) != fmt.Sprint(want.Labels) {
+							r.Fail("clone-tree-nil-target-differs", fmt.Sprintf("emitting through %s on buffer-less emitters: PC $%06x/$%06x flags %02x/%02x labels equal=%v", t.describe(), want.PC, got.PC, want.Flags, got.Flags, fmt.Sprint(got.Labels) == fmt.Sprint(want.Labels)), map[string]interface{}{"calls": hs(), "tree": t.log})
+						}
+						cells["tree:nil-target"]++
+						continue
+					}
+					if d := want.diffFull(got); d != "" {
+						r.Fail("clone-tree-differs", fmt.Sprintf("emitting through %s: direct vs recombined: %s", t.describe(), d), map[string]interface{}{"calls": hs(), "tree": t.log})
+						continue
+					}
+					if fin, _ := finalizeOutcome(root); fin != wantFin || (wantFin == "ok" && string(root.Bytes()) != string(wantFinBytes)) {
+						at := -1
+						if fin == wantFin {
+							at = firstDiff(root.Bytes(), wantFinBytes)
+						}
+						r.Fail("clone-tree-finalize", fmt.Sprintf("emitting through %s: Finalize direct=%s recombined=%s, finalized bytes differ at %d", t.describe(), wantFin, fin, at), map[string]interface{}{"calls": hs(), "tree": t.log})
+						continue
+					}
+					cells["tree:buffered"]++
+				}
 			}
+			r.MergeCells(cells)
+		})
+	}
+	for _, s := range []string{"tree:nil-target", "tree:buffered", "tree:siblings", "tree:alias-target", "tree:empty-clone", "tree:state-only-clone", "tree:depth2"} {
+		if r.OnlyPhase == "" || r.OnlyPhase == "clone-trees" {
+			r.RequireSub(s)
 		}
-		r.MergeCells(cells)
-	})
+	}
+	if r.OnlyPhase != "" && r.OnlyPhase != "splits" {
+		return
+	}
 	for _, s := range []string{"fwdref", "backref", "base", "width", "nothing:listing=true", "nothing:listing=false", "append-refused:short1", "append-refused:short3", "multi:two-splits", "multi:nested-clones"} {
 		r.RequireSub(s)
+	}
+}
+
+// cloneTree feeds a call sequence to an emitter, passing stretches of it through clones: clones of
+// clones, several sibling clones of one state of which one is kept, clones that receive no call or only
+// calls that emit nothing, clone targets that are separate buffers or the unused tail of the parent's own.
+type cloneTree struct {
+	g       *vf.Rng
+	nilMode bool
+	cells   map[string]int64
+	log     []string
+	maxDep  int
+	nclone  int
+}
+
+func (t *cloneTree) describe() string {
+	return fmt.Sprintf("%d clones (depth %d, see tree)", t.nclone, t.maxDep)
+}
+
+func emitsNothing(c hcall) bool {
+	return c.Op == "assumerep" || c.Op == "assumesep" || c.Op == "comment" || c.Op == "label" || (c.Op == "data" && len(c.Data) == 0)
+}
+
+func (t *cloneTree) feed(e *asm.Emitter, buf []byte, calls []hcall, depth int) {
+	g := t.g
+	if depth > t.maxDep {
+		t.maxDep = depth
+	}
+	if depth >= 2 {
+		t.cells["tree:depth2"]++
+	}
+	for i := 0; i < len(calls); {
+		if depth >= 4 || g.Intn(5) != 0 {
+			invoke(e, calls[i])
+			i++
+			continue
+		}
+		// calls[i:j] go through a clone
+		j := i + g.Intn(len(calls)-i+1)
+		switch g.Intn(4) {
+		case 0:
+			j = i // a clone that receives nothing
+		case 1: // a clone that only receives calls that emit no byte
+			j = i
+			for j < len(calls) && emitsNothing(calls[j]) {
+				j++
+			}
+		case 2:
+			if j > i+8 {
+				j = i + 1 + g.Intn(8)
+			}
+		}
+		nsib := 1
+		if g.Intn(2) == 0 {
+			nsib = 2 + g.Intn(2)
+			t.cells["tree:siblings"]++
+		}
+		chosen := g.Intn(nsib)
+		sibs := make([]*asm.Emitter, nsib)
+		bufs := make([][]byte, nsib)
+		alias := false
+		for s := range sibs {
+			switch {
+			case t.nilMode:
+			case s == chosen && buf != nil && g.Bool():
+				bufs[s] = buf[e.Len():] // the unused tail of the parent's own buffer
+				alias = true
+				t.cells["tree:alias-target"]++
+			default:
+				bufs[s] = make([]byte, 16384)
+			}
+			sibs[s] = e.Clone(bufs[s])
+			t.nclone++
+		}
+		t.log = append(t.log, fmt.Sprintf("depth %d: calls[%d:%d] through clone %d of %d (alias=%v)", depth, i, j, chosen, nsib, alias))
+		if j == i {
+			t.cells["tree:empty-clone"]++
+		} else {
+			only := true
+			for _, c := range calls[i:j] {
+				only = only && emitsNothing(c)
+			}
+			if only {
+				t.cells["tree:state-only-clone"]++
+			}
+		}
+		decoy := func(s int) {
+			// an abandoned candidate: a few bytes of its own, then some other stretch of the same calls
+			for n := g.Intn(4); n > 0; n-- {
+				invoke(sibs[s], hcall{Op: "ins", M: emByName["NOP"]})
+			}
+			j2 := i + g.Intn(len(calls)-i+1)
+			for _, c := range calls[i:j2] {
+				invoke(sibs[s], c)
+			}
+		}
+		late := -1
+		for s := range sibs {
+			switch {
+			case s == chosen:
+				t.feed(sibs[s], bufs[s], calls[i:j], depth+1)
+			case g.Intn(4) == 0 && late < 0:
+				late = s // driven only after the Append of its sibling
+			default:
+				decoy(s)
+			}
+		}
+		e.Append(sibs[chosen])
+		if late >= 0 {
+			decoy(late)
+		}
+		i = j
 	}
 }
 
@@ -309,7 +485,7 @@ func splitPlus(s string) []string {
 
 // C19: all-or-nothing emission at capacity; nil-target emitters track equally.
 func C19(r *vf.Run) {
-	r.Rule = "generated histories (a third of them re-basing with SetBase in mid-stream) replayed at every capacity from 0 to the program size (thorough) or at capacities 0-3 bytes short of every call boundary (quick): a call fits iff Len+size <= Cap; a call that does not fit must be refused leaving Bytes(), the target buffer, Len, PC and labels unchanged, a call that fits must be accepted; a nil-target emitter (from NewEmitter(nil) or Clone(nil) of a buffered or buffer-less parent) runs in lockstep with a roomy one on PC, GetLabel and Flags; a cell is (kind of refused call, bytes short) or nil-target call kind"
+	r.Rule = "generated histories (a third of them re-basing with SetBase in mid-stream) replayed at every capacity from 0 to the program size (thorough) or at capacities 0-3 bytes short of every call boundary (quick): a call fits iff Len+size <= Cap; a call that does not fit must be refused leaving Bytes(), the target buffer, Len, PC and labels unchanged, a call that fits must be accepted; the same bound for bytes arriving by Append of a clone whose target is a separate buffer or the unused part of the arena the parent's window was cut from; a nil-target emitter (from NewEmitter(nil) or Clone(nil) of a buffered or buffer-less parent) runs in lockstep with a roomy one on PC, GetLabel and Flags; a cell is (kind of refused call, bytes short) or nil-target call kind"
 	r.Assume = []string{"tracked flags and listing lines after a refused call are not among the observables the statement enumerates"}
 	if r.Phase("capacity") {
 		chunks := r.N(32, 1600)
@@ -422,6 +598,109 @@ func C19(r *vf.Run) {
 			r.MergeCells(cells)
 		})
 	}
+	if r.Phase("append-capacity") {
+		// the other way bytes get into an emitter: Append of a clone. The clone's target is a separate
+		// buffer or the unused part of the arena the parent's own window was cut from.
+		chunks := r.N(32, 1600)
+		r.Parallel(runtime.NumCPU(), chunks, func(w, ci int) {
+			g := r.Rand("appcap").Fork(uint64(ci))
+			cells := map[string]int64{}
+			for k := 0; k < 40 && !r.TooMany(); k++ {
+				listing := g.Intn(3) == 0
+				calls, _, _ := genHistory(g, histOpts{maxCalls: 40, listing: listing, dataBlocks: g.Intn(3) == 0, withRefs: true})
+				names := labelNames(calls)
+				hs := func() []string { return histStrings(calls) }
+				for rep := 0; rep < 6; rep++ {
+					sp := g.Intn(len(calls) + 1)
+					sz := newShadow(listing)
+					for _, c := range calls[:sp] {
+						if sz.legal(c) {
+							sz.apply(c)
+						}
+					}
+					prefix := len(sz.code)
+					for _, c := range calls[sp:] {
+						if sz.legal(c) {
+							sz.apply(c)
+						}
+					}
+					tail := len(sz.code) - prefix
+					short := []int{-2, 0, 0, 1, 1, 2, 3, 1 + g.Intn(tail+1)}[g.Intn(8)]
+					if short > tail {
+						short = tail
+					}
+					capacity := prefix + tail - short
+					arena := make([]byte, prefix+tail+64)
+					for i := range arena {
+						arena[i] = 0xCC
+					}
+					var window []byte
+					alias := g.Bool()
+					if alias {
+						window = arena[:capacity] // the rest of the arena stays reachable through cap()
+					} else {
+						window = arena[:capacity:capacity]
+					}
+					parent := asm.NewEmitter(window, listing)
+					for _, c := range calls[:sp] {
+						invoke(parent, c)
+					}
+					if parent.Len() != prefix {
+						break // prefix handling is the capacity phase's concern
+					}
+					var clone *asm.Emitter
+					if alias {
+						clone = parent.Clone(arena[parent.Len():])
+					} else {
+						clone = parent.Clone(make([]byte, tail+8))
+					}
+					for _, c := range calls[sp:] {
+						invoke(clone, c)
+					}
+					if clone.Len() != tail {
+						r.Fail("append-capacity-clone-len", fmt.Sprintf("split %d: clone holds %d bytes, expected %d", sp, clone.Len(), tail), hs())
+						break
+					}
+					before := observe(parent, names)
+					r.Eval(1)
+					pan := vf.Try(func() { parent.Append(clone) })
+					kind := fmt.Sprintf("alias=%v", alias)
+					if parent.Len() > parent.Cap() || parent.Cap() != capacity || len(parent.Bytes()) > capacity {
+						r.Fail("len-exceeds-cap-after-append", fmt.Sprintf("split %d (%s): after Append of %d bytes to %d of capacity %d: Len=%d Cap=%d len(Bytes())=%d", sp, kind, tail, prefix, capacity, parent.Len(), parent.Cap(), len(parent.Bytes())), hs())
+						break
+					}
+					if short > 0 {
+						if pan == nil {
+							r.Fail("overflowing-append-accepted", fmt.Sprintf("split %d (%s): Append of %d bytes to %d of capacity %d was accepted", sp, kind, tail, prefix, capacity), hs())
+							break
+						}
+						after := observe(parent, names)
+						after.Flags = before.Flags
+						if d := before.diff(after); d != "" {
+							r.Fail("refused-append-changed", fmt.Sprintf("split %d (%s): refused Append (%d short) changed %s", sp, kind, short, d), hs())
+							break
+						}
+						sc := short
+						if sc > 4 {
+							sc = 4
+						}
+						cells[fmt.Sprintf("append-refused:%s:short%d", kind, sc)]++
+					} else {
+						if pan != nil {
+							r.Fail("fitting-append-refused", fmt.Sprintf("split %d (%s): Append of %d bytes to %d of capacity %d was refused: %v", sp, kind, tail, prefix, capacity, pan), hs())
+							break
+						}
+						if parent.Len() != prefix+tail || parent.PC() != sz.addr || string(parent.Bytes()) != string(sz.code) {
+							r.Fail("accepted-append-bookkeeping", fmt.Sprintf("split %d (%s): after Append Len=%d PC=$%06x expected %d/$%06x, bytes equal=%v", sp, kind, parent.Len(), parent.PC(), prefix+tail, sz.addr, string(parent.Bytes()) == string(sz.code)), hs())
+							break
+						}
+						cells[fmt.Sprintf("append-fits:%s:spare%d", kind, -short)]++
+					}
+				}
+			}
+			r.MergeCells(cells)
+		})
+	}
 	if r.Phase("nil-target") {
 		chunks := r.N(32, 1600)
 		r.Parallel(runtime.NumCPU(), chunks, func(w, ci int) {
@@ -488,7 +767,8 @@ func C19(r *vf.Run) {
 			r.MergeCells(cells)
 		})
 	}
-	for _, s := range []string{"refused:ins2:short1", "refused:ins3:short1", "refused:ins3:short2", "refused:ins4:short3", "refused:data:short1", "refused:data:short4", "-label:short1", "nil:data", "nil:label", "nil:ins4", "nil-created:1", "nil-created:2"} {
+	for _, s := range []string{"refused:ins2:short1", "refused:ins3:short1", "refused:ins3:short2", "refused:ins4:short3", "refused:data:short1", "refused:data:short4", "-label:short1", "nil:data", "nil:label", "nil:ins4", "nil-created:1", "nil-created:2",
+		"append-refused:alias=true:short1", "append-refused:alias=false:short1", "append-refused:alias=true:short4", "append-fits:alias=true:spare0", "append-fits:alias=false:spare0"} {
 		r.RequireSub(s)
 	}
 }
